@@ -163,6 +163,14 @@ def oracle(c, o):
             return [(kind + ':foreign:read-error', 'a well-formed index file was rejected: ' + str(o.get('frdmsg')))]
         if o.get('frdnil'):
             return [(kind + ':foreign:nil-index', 'reading a well-formed index file returned neither an index nor an error')]
+    elif c.get('refusal_stats') and 'addpanic' not in o and 'stats' in o:
+        # a record refused for position order is not a record added: the statistics are those of the accepted ones
+        if not any(e != 0 for e in o.get('adderr', [])):
+            return out
+        ts = c04gen.true_stats(c, o)
+        if o.get('stats') != ts['stats']:
+            out.append(('%s:stats:after-refused-add' % kind, 'after an Add that was refused, ReferenceStats = %s, the accepted records give %s' % (o.get('stats'), ts['stats'])))
+        return out
     elif not c.get('wellformed'):
         return out
     if 'addpanic' in o or any(e != 0 for e in o.get('adderr', [])):
@@ -322,6 +330,12 @@ def gen_cases(rng, tier):
     for kind in ('bai', 'csi', 'tabix'):
         for _ in range(nf):
             cases.append(gen_foreign(rng, kind))
+    # an Add refused for position order in the middle of a build: the statistics must not count it
+    for kind in ('csi', 'bai', 'tabix'):
+        for _ in range(6 if tier == 'quick' else 60):
+            c = c04gen.gen_case(rng, kind, tier, 'posorder', small=True)
+            c['refusal_stats'] = True
+            cases.append(c)
     return cases
 
 
